@@ -61,7 +61,8 @@ def entries(cls, quick=True):
                   "Sum([Box('f', Ob('x'), Ob('y')), Box('g', Ob('x'), Ob('y'))])",
                   "Sum([Box('g', Ob('x'), Ob('y')), Box('f', Ob('x'), Ob('y'))])",
                   "Box('f', Ob('x'), Ob('y')) + Box('g', Ob('x'), Ob('y'))",
-                  "Sum([Id(Ob('x')) >> Box('f', Ob('x'), Ob('y'))])"):
+                  "Sum([Id(Ob('x')) >> Box('f', Ob('x'), Ob('y'))])",
+                  "Sum((Box('f', Ob('x'), Ob('y')), Box('g', Ob('x'), Ob('y'))))"):
             out.append(("expr", e))
         for r in c02.cat_recipes(3 if quick else 4):
             out.append(("recipe", r, "layered"))
@@ -105,7 +106,8 @@ def entries(cls, quick=True):
             "Sum([Box('g', %s, %s), Box('f', %s, %s)])" % (X, Y, X, Y),
             "Box('f', %s, %s) + Box('g', %s, %s)" % (X, Y, X, Y),
             "Sum([Id(%s) >> Box('f', %s, %s)])" % (X, X, Y),
-            "Sum([Box('f', %s, %s) @ Id(%s)])" % (X, Y, X)]
+            "Sum([Box('f', %s, %s) @ Id(%s)])" % (X, Y, X),
+            "Sum((Box('f', %s, %s), Box('g', %s, %s)))" % (X, Y, X, Y)]
     if cls == "rigid":
         N = "Ty('n')"
         more += ["Cup(%s, %s.r)" % (N, N), "Cup(%s.l, %s)" % (N, N), "Cup(%s.r, %s)" % (N, N),
@@ -246,6 +248,8 @@ def type_differences(a, b, path="", out=None):
         if is_ty(a.name) or kind(a.name) == "ob":
             pass
     elif ka == "sum":
+        if str(a.name)[:5] != str(b.name)[:5] and {str(a.name)[4:5], str(b.name)[4:5]} == {"(", "["}:
+            out.add("%ssum-terms-container:list-vs-tuple" % path)   # Sum((f, g)) vs Sum([f, g])
         type_differences(a.dom, b.dom, path, out)
         type_differences(a.cod, b.cod, path, out)
         for x, y in zip(a.terms, b.terms):
